@@ -131,6 +131,14 @@ def build_corpus(quick):
         add('same-text-nested-%d' % j, {'k': [text]}, {'width': 50})
         add('same-text-narrow-%d' % j, text, {'width': 30})
         add('same-text-strsub-%d' % j, c08.FAMILY[str][0](text))
+    SS, BS = c08.FAMILY[str][0], c08.FAMILY[bytes][0]
+    add('same-key-plain-str', {'id': 1, 'name': 'x'})
+    add('same-key-str-subclass', {SS('id'): 1, SS('name'): 'x'})
+    add('same-key-bytes', {b'id': 1})
+    add('same-key-bytes-subclass', {BS(b'id'): 1})
+    add('same-key-int-float-bool', [{1: 'a'}, {1.0: 'a'}, {True: 'a'}])
+    add('same-key-float-first', [{1.0: 'a'}, {1: 'a'}])
+    add('same-key-tuple-variants', [{(1, 2): 0}, {c08.FAMILY[tuple][0]((1, 2)): 0}, {(1.0, 2): 0}])
     add('same-items-list', [1, 2, 3, 'x'])
     add('same-items-tuple', (1, 2, 3, 'x'))
     add('same-items-set', {1, 2, 3, 'x'})
